@@ -1268,7 +1268,17 @@ def inc1(ctx, c):
     while isinstance(it_, ast.Call) and isinstance(it_.func, ast.Name) and it_.func.id in ("enumerate", "list", "tuple", "iter") and it_.args:
         it_ = it_.args[0]          # wrappers that keep every element in order
     # the parameter re-bound to a copy of itself (`statements = list(statements)`) is still the input
-    if U(it_) == params[0]:
+    mutated = [x for x in ast.walk(loop) if (isinstance(x, (ast.Assign, ast.AugAssign, ast.Delete)) and any(
+                   isinstance(t_, ast.Subscript) and U(t_.value) == U(it_) for t_ in (x.targets if isinstance(x, (ast.Assign, ast.Delete)) else [x.target])))
+               or (isinstance(x, ast.Call) and isinstance(x.func, ast.Attribute) and U(x.func.value) == U(it_) and x.func.attr in ("insert", "pop", "remove", "extend", "append", "clear"))]
+    if U(it_) == params[0] and mutated and it_ is not loop.iter and not (isinstance(loop.iter, ast.Call) and U(loop.iter.func) in ("list", "tuple")):
+        c.finding("process_mnemonics:iteration", "the list being iterated is changed inside the loop (%s)" % U(mutated[0])[:50],
+                  "process_mnemonics walks `%s` and stores into the same list inside the loop (`%s`): the walk then visits the spliced-in statements again (their INCLUDEs "
+                  "are expanded by the wrong pass, with the wrong chain) and the caller's list is altered" % (U(loop.iter), U(mutated[0])[:70]), repo.loc(fn, mutated[0]))
+    elif U(it_) == params[0] and mutated and it_ is loop.iter:
+        c.finding("process_mnemonics:iteration", "the list being iterated is changed inside the loop (%s)" % U(mutated[0])[:50],
+                  "process_mnemonics walks `%s` and stores into the same list inside the loop (`%s`)" % (U(loop.iter), U(mutated[0])[:70]), repo.loc(fn, mutated[0]))
+    elif U(it_) == params[0]:
         c.ok("process_mnemonics:iteration", "iterates its input in order", repo.loc(fn, loop))
     elif (isinstance(it_, ast.Call) and isinstance(it_.func, ast.Name) and it_.func.id in ("reversed", "sorted", "set") and it_.args and U(it_.args[0]) == params[0]) or \
             (isinstance(it_, ast.Subscript) and isinstance(it_.slice, ast.Slice) and U(it_.value) == params[0]):
